@@ -525,6 +525,38 @@ class CeiloChunk(AbstractChunk):
 
         return pdf
 
+    def _calculate_base_height_for_members(
+            self,
+            in_sligrolay,  # type: pd.Series[bool]
+            cid: int
+    ) -> float:
+        """Calculate the base height of one slice/ group/ layer, leaving aside the ceilometers
+        listed in EXCLUDE_FOR_BASE_HEIGHT_CALC (provided enough hits remain).
+
+        Args:
+            in_sligrolay (pd.Series(dtype=bool)): which hits belong to the slice/ group/ layer.
+            cid (int): original ID of the slice/ group/ layer (used for reporting only).
+
+        Returns:
+            float: the base height.
+
+        """
+        if self.prms['EXCLUDE_FOR_BASE_HEIGHT_CALC'] != []:
+            in_sligrolay_filtered = in_sligrolay * self.data['ceilo'].apply(
+                lambda x: x not in self.prms['EXCLUDE_FOR_BASE_HEIGHT_CALC']
+            )
+            # We require a minimum of hits by the filtered ceilos that belong to the layer
+            # of interest. Otherwise fall back to using all ceilos for the calculation.
+            if in_sligrolay_filtered.sum() > self.prms['MAX_HITS_OKTA0']:
+                in_sligrolay = in_sligrolay_filtered
+            else:
+                warnings.warn(
+                    'Not enough data after filtering to calculate cloud base height, '
+                    f'will fall back to use all data in group/ slice/ layer {cid}',
+                    AmpycloudWarning
+                )
+        return self._calculate_base_height_for_selection(in_sligrolay)
+
     def _calculate_sligrolay_base_height(
             self, which: str, pdf: pd.DataFrame, cluster_ids: np.ndarray
         ) -> pd.DataFrame:
@@ -542,23 +574,9 @@ class CeiloChunk(AbstractChunk):
         for ind, cid in enumerate(cluster_ids):
             # Which hits are in this sli/gro/lay ?
             in_sligrolay = self.data[which[:-1]+'_id'] == cid
-            if self.prms['EXCLUDE_FOR_BASE_HEIGHT_CALC'] != []:
-                in_sligrolay_filtered = in_sligrolay * self.data['ceilo'].apply(
-                    lambda x: x not in self.prms['EXCLUDE_FOR_BASE_HEIGHT_CALC']
-                )
-                # We require a minimum of hits by the filtered ceilos that belong to the layer
-                # of interest. Otherwise fall back to using all ceilos for the calculation.
-                if in_sligrolay_filtered.sum() > self.prms['MAX_HITS_OKTA0']:
-                    in_sligrolay = in_sligrolay_filtered
-                else:
-                    warnings.warn(
-                        'Not enough data after filtering to calculate cloud base height, '
-                        f'will fall back to use all data in group/ slice/ layer {cid}',
-                        AmpycloudWarning
-                    )
             # Compute the base height
             pdf.iloc[ind, pdf.columns.get_loc('height_base')] = \
-                self._calculate_base_height_for_selection(in_sligrolay)
+                self._calculate_base_height_for_members(in_sligrolay, cid)
         return pdf
 
     @log_func_call(logger)
@@ -759,11 +777,13 @@ class CeiloChunk(AbstractChunk):
             prelim_groups.drop(index=idx, inplace=True)
             # resetting because we must not have index gaps in the next iteration
             prelim_groups.reset_index(drop=True, inplace=True)
-            # now we recalculate the base height for the merged supergroup
+            # now we recalculate the base height for the merged supergroup, in the very same way
+            # as it will eventually be reported (i.e. honouring EXCLUDE_FOR_BASE_HEIGHT_CALC)
             data_idxer = self.data['group_id'] == prelim_groups['cluster_id'].iloc[idx - 1]
             prelim_groups.iloc[
                 idx - 1, prelim_groups.columns.get_loc('height_base')
-            ] = self._calculate_base_height_for_selection(data_idxer)
+            ] = self._calculate_base_height_for_members(
+                data_idxer, prelim_groups['cluster_id'].iloc[idx - 1])
             # as this changes base height, it is possible that we now are closer
             # to another group, so we have to continue iteratively.
             min_seps_grp = prelim_groups['height_base'].apply(self._get_min_sep_for_height)
